@@ -339,10 +339,13 @@ def run(ch, idx, tier):
     progset = P.progsets[0] if use_progs else None
     n_instr = 1
     instructions = None
+    result_names = None
     if use_progs:
-        n_instr = 1 + ch.choose("n_instructions", 2)
+        n_instr = 1 + ch.choose("n_instructions", 3)
         start = float(np.floor(P.settings.sim_start + 2))
         instructions = [at.ProgramInstructions(start_year=start + i) for i in range(n_instr)]
+        if ch.flip("result_names", 0.3):
+            result_names = [f"scenario {i}" for i in range(n_instr)]
     explicit_inter = False
     if use_progs and ch.flip("explicit_interactions", 0.35):
         # program book with explicit interaction outcomes ("A+B=value"), as the effects sheet allows
@@ -369,7 +372,7 @@ def run(ch, idx, tier):
     prior_adv = ch.choose("prior_advance", 1000)
     p_retry = ch.pick("retry_rate", [0.0, 0.0, 0.15, 0.4])
     site = f"{'Project.run_sampled_sims' if api == 'run_sampled_sims' else 'Ensemble.run_sims'}(parallel={parallel})"
-    config = {"project": name, "programs": use_progs, "n_instr": n_instr, "sigma_mode": mode, "explicit_interactions": explicit_inter, "n_uncertain": npos, "api": api, "parallel": parallel, "n": n, "cpu_count": cpu, "workers": workers, "prior": prior, "retry_rate": p_retry}
+    config = {"project": name, "programs": use_progs, "n_instr": n_instr, "result_names": result_names is not None, "sigma_mode": mode, "explicit_interactions": explicit_inter, "n_uncertain": npos, "api": api, "parallel": parallel, "n": n, "cpu_count": cpu, "workers": workers, "prior": prior, "retry_rate": p_retry}
 
     # ---- simulated world ---------------------------------------------------------------
     world = SimWorld(ch, seed=ch.choose("entropy_seed", 2**31 - 1), cpu_count=cpu)
@@ -448,11 +451,11 @@ def run(ch, idx, tier):
     ens = None
     try:
         if api == "run_sampled_sims":
-            results = P.run_sampled_sims(parset, progset=progset, progset_instructions=instructions, n_samples=n, parallel=parallel, num_workers=workers)
+            results = P.run_sampled_sims(parset, progset=progset, progset_instructions=instructions, result_names=result_names, n_samples=n, parallel=parallel, num_workers=workers)
         else:
             outputs = [c for c in list(P.framework.comps.index)[:2]]
             ens = at.Ensemble(functools.partial(_mapping_function, outputs=outputs))
-            ens.run_sims(P, parset, progset=progset, progset_instructions=instructions, n_samples=n, parallel=parallel)
+            ens.run_sims(P, parset, progset=progset, progset_instructions=instructions, result_names=result_names, n_samples=n, parallel=parallel)
             results = ens.samples
     except Exception as e:  # noqa
         exc = e
@@ -478,6 +481,15 @@ def run(ch, idx, tier):
                 if r is not None and len(r) != n_instr:
                     violations.append({"cls": "wrong_result_shape", "site": site, "detail": {"expected_per_sample": n_instr, "got": len(r)}})
                     break
+                if r is not None and use_progs:
+                    # the j-th result of every sample belongs to the j-th instructions (pairing), under the requested name
+                    got_starts = [x.model.program_instructions.start_year for x in r]
+                    if got_starts != [ins.start_year for ins in instructions]:
+                        violations.append({"cls": "results_paired_with_wrong_instructions", "site": site, "detail": {"expected": [ins.start_year for ins in instructions], "got": got_starts}})
+                        break
+                    if result_names is not None and [x.name for x in r] != result_names:
+                        violations.append({"cls": "results_misnamed", "site": site, "detail": {"expected": result_names, "got": [x.name for x in r]}})
+                        break
         if len(samples) != n:
             violations.append({"cls": "wrong_sample_count", "site": site, "detail": {"expected": n, "executed": len(samples)}})
 
